@@ -241,7 +241,7 @@ def run_shard(ctx):
     def test(case):
         check_case(ctx, case)
 
-    runner.drive(ctx, test, ctx.n(640, 12000))
+    runner.drive(ctx, test, ctx.n(960, 16000))
 
 
 def replay(ctx, case):
